@@ -793,8 +793,21 @@ func TestVerifC05MemChild(t *testing.T) {
 			t.Fatal(err)
 		}
 		fmt.Fprintf(out, "CASE %d\n", j)
-		_, _, note := c05mRun(t, cfgs[j], root.Fork(uint64(j)), dir, out)
-		fmt.Fprintf(out, "END %d %s\n", j, note)
+		// watchdog: a broken lock discipline can also deadlock the run (e.g. v1 FlushAppConn
+		// re-locking a mutex nobody unlocks); give up on this process, the parent restarts behind it
+		done := make(chan string, 1)
+		go func(j int) {
+			_, _, note := c05mRun(t, cfgs[j], root.Fork(uint64(j)), dir, out)
+			done <- note
+		}(j)
+		select {
+		case note := <-done:
+			fmt.Fprintf(out, "END %d %s\n", j, note)
+		case <-time.After(20 * time.Second):
+			fmt.Fprintf(out, "A run hung for 20s (deadlock)\nEND %d hung\n", j)
+			_ = out.Sync()
+			os.Exit(3)
+		}
 	}
 }
 
@@ -875,7 +888,9 @@ func c05mTest(t *testing.T, v1 bool) {
 	outPath := filepath.Join(t.TempDir(), "events.log")
 	aborts := 0
 	results := map[int]*c05mResult{}
-	for from := 0; from < len(cfgs) && aborts < 40; {
+	t0 := time.Now()
+	budget := time.Duration(vg.Scale(90, 3600)) * time.Second // restarts after aborts stop here
+	for from := 0; from < len(cfgs) && aborts < 40 && (aborts == 0 || time.Since(t0) < budget); {
 		cmd := exec.Command(os.Args[0], "-test.run=^TestVerifC05MemChild$", "-test.timeout=3000s")
 		cmd.Env = append(os.Environ(), "C05M_CHILD="+which, "C05M_FROM="+strconv.Itoa(from),
 			"C05M_OUT="+outPath, "C05M_ONLY="+strconv.Itoa(vg.Only()))
